@@ -100,6 +100,17 @@ def find_nodes(g: CFG, pred: Callable[[ast.AST], bool]) -> List[Tuple[Node, ast.
     return out
 
 
+# typing alias -> the token of the runtime class its __origin__ is (List[int].__origin__ is list): code may compare an
+# origin with the builtin or collections class by identity
+_ORIGIN_RUNTIME = {"List": "builtin:list", "Set": "builtin:set", "Dict": "builtin:dict", "Tuple": "builtin:tuple", "Type": "builtin:type",
+                   "FrozenSet": "builtin:frozenset", "DefaultDict": "mod:collections.defaultdict", "Deque": "mod:collections.deque",
+                   "OrderedDict": "mod:collections.OrderedDict", "Counter": "mod:collections.Counter", "ChainMap": "mod:collections.ChainMap"}
+
+
+def origin_token(alias_name: str) -> S:
+    return S(_ORIGIN_RUNTIME.get(alias_name, "origin:" + alias_name))
+
+
 SELECTOR_ROLE = "monkeytype.tracing._has_code"
 
 
@@ -209,6 +220,12 @@ class RepoInterp:
 
     def on_attr(self, obj: V, attr: str, node: ast.AST, st: State) -> Optional[V]:
         ci = None
+        if isinstance(obj, S) and obj.name == "self" and self.self_class is not None:
+            # a class-level constant read through the instance (`self._KINDS`); instance attributes are the scenario's business
+            for c in self.repo.mro(self.self_class):
+                if attr in c.attrs:
+                    ci = self.self_class
+                    break
         if isinstance(obj, R) and obj.kind == "inst":
             ci = self.class_of(obj)
         elif isinstance(obj, Ref) and obj.kind == "obj":
